@@ -85,6 +85,11 @@ class Check:
         """fail closed (exit 2) if fewer than n instances of `rule` were matched"""
         self.min_counts[rule] = n
 
+    def new_violations(self):
+        """violations that are not listed as known findings"""
+        known = load_known(self.pid)
+        return [v for v in self.violations if v["key"] not in known]
+
     def violation(self, rule, where, construct, msg, file=None, line=None, path=None):
         """key = rule|where|construct  (no line numbers in the key)"""
         key = "%s|%s|%s" % (rule, where, construct)
